@@ -1,12 +1,12 @@
 SPECIFICATION Spec
 CONSTANTS KnownDevs = {}
 INVARIANTS
+  InEnvelope
+  EnvDistinctMatchKeys
   C08_FilterMeansWhatItSays
   C08_PfdTableReplacedOrKept
   C08_ProvisionedApplicationUsable
   C02_ExactlyOneResponse
-  InEnvelope
-  EnvDistinctMatchKeys
 POSTCONDITION TraceAccepted
 ALIAS Alias
 CHECK_DEADLOCK FALSE
